@@ -511,6 +511,215 @@ fn run_chan_mt(tape: &mut Tape, nthreads: usize, maxlen: usize, verbose: bool) -
 }
 
 // ------------------------------------------------------------------------------------------
+// C04: sync-mt (synchronous channel with really blocking sends)
+
+/// programs over {S = send (blocking), T = try_send, C = clone, D = drop}
+fn sync_programs(max: usize) -> Vec<Vec<u8>> {
+    let mut out = vec![];
+    fn rec(cur: &mut Vec<u8>, handles: i32, max: usize, out: &mut Vec<Vec<u8>>) {
+        if !cur.is_empty() {
+            out.push(cur.clone());
+        }
+        if cur.len() == max {
+            return;
+        }
+        for op in [b'S', b'T', b'C', b'D'] {
+            let ok = match op {
+                b'C' => handles > 0 && handles < 2,
+                _ => handles > 0,
+            };
+            if ok {
+                cur.push(op);
+                let h = match op {
+                    b'C' => handles + 1,
+                    b'D' => handles - 1,
+                    _ => handles,
+                };
+                rec(cur, h, max, out);
+                cur.pop();
+            }
+        }
+    }
+    rec(&mut vec![], 1, max, &mut out);
+    out.retain(|p| p.iter().any(|o| *o == b'S' || *o == b'T'));
+    out
+}
+
+fn run_sync_mt(tape: &mut Tape, nthreads: usize, maxlen: usize, verbose: bool) -> Outcome {
+    use calloop::channel::{sync_channel, Event, SyncSender};
+    STAMP.store(0, Ordering::SeqCst);
+    sched::start_watchdog();
+    let mut out = Outcome::default();
+    sched::begin(std::mem::take(tape), nthreads + 1);
+    let progs = sync_programs(maxlen);
+    let mut chosen: Vec<Vec<u8>> = vec![];
+    for _ in 0..nthreads {
+        let c = choose_free(progs.len() as u32);
+        chosen.push(progs[c as usize].clone());
+    }
+    let bound = choose_free(3) as usize; // 0 (rendezvous), 1, 2
+    out.decoded.push(format!(
+        "sync-programs {:?} bound {bound}",
+        chosen.iter().map(|p| String::from_utf8_lossy(p).to_string()).collect::<Vec<_>>()
+    ));
+    let shared = Arc::new(ChanShared::default());
+    let started: Arc<Mutex<Vec<(usize, u32, u64)>>> = Arc::new(Mutex::new(vec![])); // blocking sends begun
+    let mut el: EventLoop<'static, u32> = EventLoop::try_new().expect("loop");
+    let (tx, rx) = sync_channel::<u32>(bound);
+    let sh = shared.clone();
+    let token = el
+        .handle()
+        .insert_source(rx, move |ev, _, n: &mut u32| {
+            *n += 1;
+            match ev {
+                Event::Msg(v) => sh.delivered.lock().unwrap().push((v, stamp())),
+                Event::Closed => sh.closed_at.lock().unwrap().push(stamp()),
+            }
+        })
+        .expect("insert");
+    let handle = el.handle();
+    let mut joins = vec![];
+    let total_ops: usize = chosen.iter().map(|p| p.len()).sum();
+    for (i, prog) in chosen.iter().enumerate() {
+        let tid = i + 1;
+        let mut handles: Vec<SyncSender<u32>> = vec![tx.clone()];
+        let prog = prog.clone();
+        let sh = shared.clone();
+        let st = started.clone();
+        joins.push(sched::spawn(tid, move || {
+            let mut seq = 0u32;
+            for op in prog {
+                sched::point("op");
+                match op {
+                    b'S' => {
+                        let v = tid as u32 * 100 + seq;
+                        seq += 1;
+                        st.lock().unwrap().push((tid, v, stamp()));
+                        if handles[0].send(v).is_ok() {
+                            sh.sent.lock().unwrap().push((tid, v, stamp()));
+                        }
+                    }
+                    b'T' => {
+                        let v = tid as u32 * 100 + seq;
+                        seq += 1;
+                        if handles[0].try_send(v).is_ok() {
+                            sh.sent.lock().unwrap().push((tid, v, stamp()));
+                        }
+                    }
+                    b'C' => {
+                        let h = handles[0].clone();
+                        handles.push(h);
+                    }
+                    _ => {
+                        handles.pop();
+                    }
+                }
+            }
+            sched::point("end");
+            drop(handles);
+        }));
+    }
+    drop(tx);
+    let horizon = 4 * total_ops as u32 + nthreads as u32 + 8;
+    let mut n = 0u32;
+    let mut dispatches = 0u32;
+    let mut err = None;
+    loop {
+        if sched::is_over() {
+            break;
+        }
+        if dispatches >= horizon {
+            out.violations.push(viol(&["C04"], "spinning", &[], format!("{dispatches} dispatches without quiescing")));
+            break;
+        }
+        if let Err(e) = el.dispatch(None, &mut n) {
+            err = Some(format!("{e}"));
+            break;
+        }
+        if sched::is_over() {
+            break;
+        }
+        dispatches += 1;
+    }
+    sched::main_done();
+    let (t, trace, blocked, steps, cap) = sched::end();
+    *tape = t;
+    // release senders that are still parked: the receiver goes away
+    handle.remove(token);
+    for j in joins {
+        let _ = j.join();
+    }
+    out.transitions = steps;
+    out.callbacks = n as u64;
+    out.clauses.push("sync-channel-delivery");
+    if cap {
+        out.violations.push(viol(&["C04"], "step-cap", &[], "scheduler step cap hit".into()));
+    }
+    if let Some(e) = err {
+        out.violations.push(viol(&["C04"], "dispatch-error", &[], format!("dispatch failed: {e}")));
+    }
+    let sent = shared.sent.lock().unwrap().clone();
+    let begun = started.lock().unwrap().clone();
+    let delivered = shared.delivered.lock().unwrap().clone();
+    let closed = shared.closed_at.lock().unwrap().clone();
+    let aborted = sched_aborted(&out);
+    let parked = trace.iter().filter(|e| e.1 == "parked").count();
+    if parked > 0 {
+        out.clauses.push("blocking-send-parked");
+    }
+    if !aborted {
+        // a sender still parked while the loop is blocked: the blocking send never completes
+        let stuck: Vec<usize> = blocked.iter().copied().filter(|b| *b != 0).collect();
+        if !stuck.is_empty() && blocked.contains(&0) {
+            let pend: Vec<u32> = begun.iter().filter(|b| !sent.iter().any(|s| s.1 == b.1)).map(|b| b.1).collect();
+            out.violations.push(viol(
+                &["C04"],
+                "blocking-send-deadlock",
+                &[("bound", bound.to_string())],
+                format!("sender thread(s) {stuck:?} are parked in a blocking send (values {pend:?}) while the loop is blocked waiting for events: nobody will ever wake the other (bound {bound})"),
+            ));
+        } else {
+            let mut dv: Vec<u32> = delivered.iter().map(|d| d.0).collect();
+            let order_dv = dv.clone();
+            let mut sv: Vec<u32> = sent.iter().map(|s| s.1).collect();
+            dv.sort();
+            sv.sort();
+            if dv != sv {
+                let stranded: Vec<u32> = sv.iter().filter(|v| !dv.contains(v)).copied().collect();
+                let clause = if stranded.is_empty() { "duplicate-or-phantom" } else { "stranded-message" };
+                out.violations.push(viol(&["C04", "C02"], clause, &[("bound", bound.to_string())],
+                    format!("sent {sv:?} but delivered {order_dv:?} at quiescence (loop blocked={blocked:?}, closed={closed:?})")));
+            }
+            for t in 1..=nthreads {
+                let want: Vec<u32> = sent.iter().filter(|s| s.0 == t).map(|s| s.1).collect();
+                let got: Vec<u32> = order_dv.iter().filter(|v| (**v / 100) as usize == t).copied().collect();
+                if got != want && got.len() == want.len() {
+                    out.violations.push(viol(&["C04"], "per-sender-order", &[], format!("sender {t} sent {want:?}, delivered {got:?}")));
+                }
+            }
+            out.clauses.push("channel-closed");
+            if closed.len() != 1 {
+                out.violations.push(viol(&["C04"], "closed-count", &[("count", closed.len().to_string())],
+                    format!("Closed delivered {} times after every sender was dropped (loop blocked={blocked:?})", closed.len())));
+            } else if delivered.iter().any(|d| d.1 > closed[0]) {
+                out.violations.push(viol(&["C04"], "message-after-closed", &[], "a message was delivered after Closed".into()));
+            }
+        }
+    }
+    let mut h = std::collections::hash_map::DefaultHasher::new();
+    (delivered.iter().map(|d| d.0).collect::<Vec<_>>(), closed.len(), parked > 0, bound).hash(&mut h);
+    out.observation = h.finish();
+    out.nontrivial = n > 0 && t_switches(&trace) > 0;
+    if verbose {
+        for (tid, l) in &trace {
+            println!("step t{tid} {l}");
+        }
+        println!("sent={sent:?} delivered={delivered:?} closed={} dispatches={dispatches} blocked={blocked:?}", closed.len());
+    }
+    out
+}
+
+// ------------------------------------------------------------------------------------------
 // C10: exec-mt (executor woken from other threads)
 
 struct FlagFuture {
@@ -1174,7 +1383,7 @@ fn run_signal(tape: &mut Tape, which: &str, verbose: bool) -> Outcome {
 // ------------------------------------------------------------------------------------------
 
 pub fn is_driver(name: &str) -> bool {
-    matches!(name, "ping-mt" | "chan-mt" | "exec-mt" | "wakeup" | "run" | "block_on")
+    matches!(name, "ping-mt" | "chan-mt" | "sync-mt" | "exec-mt" | "wakeup" | "run" | "block_on")
 }
 
 pub fn run(args: &Args) -> Option<Report> {
@@ -1190,6 +1399,7 @@ pub fn run(args: &Args) -> Option<Report> {
         match name.as_str() {
             "ping-mt" => run_ping_mt(tape, nthreads, maxlen, verbose),
             "chan-mt" => run_chan_mt(tape, nthreads, maxlen, verbose),
+            "sync-mt" => run_sync_mt(tape, nthreads, maxlen, verbose),
             "exec-mt" => run_exec_mt(tape, nthreads, maxlen, verbose),
             w @ ("wakeup" | "run" | "block_on") => run_signal(tape, w, verbose),
             _ => unreachable!(),
